@@ -159,6 +159,25 @@ func (p *Pool) Search(count int, f func() interface{}) []interface{} {
 	cmdI := 0
 	for cmdI < p.workerCount {
 		yield("c:before-select")
+		// verif-only: when both cases below are ready Go picks one at random; a simulator decides
+		// instead by trying its preferred case first (selectHook is the constant 0 in normal builds).
+		switch selectHook() {
+		case 1:
+			select {
+			case <-ctrChanged:
+				yield("c:after-select")
+				continue
+			default:
+			}
+		case 2:
+			select {
+			case p.commands <- cmd:
+				cmdI++
+				yield("c:after-select")
+				continue
+			default:
+			}
+		}
 		select {
 		case p.commands <- cmd:
 			cmdI++
@@ -204,6 +223,25 @@ func (p *Pool) Parallelize(count int, f func(int) interface{}) []interface{} {
 		// sure to interleave picking off the results of workers to free them up
 		// to receive our commands
 		yield("c:before-select")
+		// verif-only: when both cases below are ready Go picks one at random; a simulator decides
+		// instead by trying its preferred case first (selectHook is the constant 0 in normal builds).
+		switch selectHook() {
+		case 1:
+			select {
+			case <-ctrChanged:
+				yield("c:after-select")
+				continue
+			default:
+			}
+		case 2:
+			select {
+			case p.commands <- cmd:
+				cmdI++
+				yield("c:after-select")
+				continue
+			default:
+			}
+		}
 		select {
 		case p.commands <- cmd:
 			cmdI++
